@@ -27,6 +27,7 @@ def parseOp (_sub : String) (j : Json) : Except String (Op String) := do
     | "w" => pure (.write p c.toList)
     | "wp" => pure (.writeAbort p c.toList)
     | "open" => pure (.openOnly p c.toList)
+    | "wign" => pure (.writeIgnored p c.toList)
     | "wnodir" => pure (.writeNoDir p)
     | _ => throw s!"unknown op {k}"
 
@@ -100,7 +101,7 @@ def handle (op : String) (j : Json) : Except String Json := do
       let body ← bodyJ.toList.mapM (parseOp subp)
       for o in body do
         match o with
-        | .write p _ | .writeAbort p _ | .openOnly p _ => univ := if p ∈ univ then univ else p :: univ
+        | .write p _ | .writeAbort p _ | .openOnly p _ | .writeIgnored p _ => univ := if p ∈ univ then univ else p :: univ
         | _ => pure ()
       let o : Opts := { dry := dry, ignoreEmpty := ie, remoteBranch := rb.map String.toList }
       let r := transaction fault rev.toList o body s
